@@ -4,6 +4,7 @@ import (
 	"bytes"
 	"encoding/json"
 	"fmt"
+	"github.com/biogo/hts/bgzf/cache"
 	"io"
 	"sort"
 	"sync/atomic"
@@ -24,7 +25,8 @@ type c13case struct {
 	Cuts  []int    `json:"cuts,omitempty"`  // cut positions in the uncompressed BAM stream
 	Empty int      `json:"empty,omitempty"` // index of the cut after which an empty block is inserted, -1 none
 	RD    int      `json:"rd,omitempty"`
-	List  [][2]int `json:"list,omitempty"` // chunks as (first record, last record)
+	List  [][2]int `json:"list,omitempty"`  // chunks as (first record, last record)
+	Cache int      `json:"cache,omitempty"` // capacity of an LRU block cache attached before the chunk lists (0: none)
 	// chunkreader
 	Lens   []int    `json:"lens,omitempty"`
 	Marker bool     `json:"marker,omitempty"`
@@ -98,6 +100,9 @@ func c13bam(c *Ctx, stream []byte, bounds []int, names []string, cas c13case, li
 		if len(chunks) != len(names) {
 			c.Violate("bam:sequential-read", fmt.Sprintf("file cut at %v: %d records read, %d written", cas.Cuts, len(chunks), len(names)), cas)
 			return
+		}
+		if cas.Cache > 0 {
+			r.SetCache(cache.NewLRU(cas.Cache))
 		}
 		for _, l := range lists {
 			var cl []bgzf.Chunk
@@ -207,7 +212,7 @@ func c13cr(c *Ctx, f *rdr.File, cas c13case) {
 }
 
 func c13(c *Ctx) {
-	c.Rule = "BAM: the uncompressed stream of a header and 5 records (reference BAM encoder) re-blocked by the independent BGZF encoder at every set of <=2 cut positions from {every record boundary, boundary-1, +1, +2 (inside the length prefix), mid-record}, with and without an empty block after a cut; sequential read notes the chunk of each record; then for every list of <=2 (thorough <=3) chunks [Begin_i,End_j] in every order (ordered, descending, overlapping, repeated) the Iterator must yield exactly the records i..j of each chunk in list order; rd in {1,2}. ChunkReader: the six C02 files plus [2 4]+EOF and [1 1 4] (a last block long enough to be consumed in several reads with data after the chunk end); every list of <=2 (thorough <=3) chunks, non-overlapping and ascending, with boundaries over ALL virtual offsets of the file (both spellings of a block end); buffer sizes {1,2,3,64} and 2 with a zero-length Read before every Read; oracle = flat bytes between each Begin and End, concatenated, then io.EOF within a horizon. Non-trivial: lists with a chunk crossing a block boundary or with >=2 chunks."
+	c.Rule = "BAM: the uncompressed stream of a header and 5 records (reference BAM encoder) re-blocked by the independent BGZF encoder at every set of <=2 cut positions from {every record boundary, boundary-1, +1, +2 (inside the length prefix), mid-record}, with and without an empty block after a cut; sequential read notes the chunk of each record; then for every list of <=2 (thorough <=3) chunks [Begin_i,End_j] in every order (ordered, descending, overlapping, repeated) the Iterator must yield exactly the records i..j of each chunk in list order; rd in {1,2}, at rd=1 also with an LRU(2) block cache attached. ChunkReader: the six C02 files plus [2 4]+EOF and [1 1 4] (a last block long enough to be consumed in several reads with data after the chunk end); every list of <=2 (thorough <=3) chunks, non-overlapping and ascending, with boundaries over ALL virtual offsets of the file (both spellings of a block end); buffer sizes {1,2,3,64} and 2 with a zero-length Read before every Read; oracle = flat bytes between each Begin and End, concatenated, then io.EOF within a horizon. Non-trivial: lists with a chunk crossing a block boundary or with >=2 chunks."
 	stream, bounds, names := c13stream()
 	if c.Replay != nil {
 		var cas c13case
@@ -283,6 +288,10 @@ func c13(c *Ctx) {
 					continue
 				}
 				cases = append(cases, c13case{Kind: "bam", Cuts: cs, Empty: e, RD: rd})
+				if rd == 1 && (c.Thorough || e < 0) {
+					// the same with a block cache (rd=1 only: read-ahead with a cache has open findings, see C03)
+					cases = append(cases, c13case{Kind: "bam", Cuts: cs, Empty: e, RD: rd, Cache: 2})
+				}
 			}
 		}
 	}
